@@ -160,7 +160,16 @@ atexit.register(_close_all)
 
 
 def run_job(job, variant="asan"):
-    return get_driver(variant).run(job)
+    r = get_driver(variant).run(job)
+    if r["timeout"] and not job.get("_retried"):
+        # a job that ran into its time limit is re-run once, alone, with six times the limit (at least a minute) before it is called
+        # a hang: on a loaded machine a limit sized for milliseconds of work can be hit by scheduling delays alone
+        j2 = dict(job, _retried=True)
+        o = dict(job.get("opts", {}))
+        o["timeout_ms"] = max(60000, 6 * int(o.get("timeout_ms", 10000)))
+        j2["opts"] = o
+        return get_driver(variant).run(j2)
+    return r
 
 
 def run_src(src, variant="asan", **opts):
